@@ -55,7 +55,7 @@ func genCaseC08(t *rapid.T) *c08Case {
 	sort.Strings(tnames)
 	cf := uconfig{Name: "mixed-registered", Family: map[string]string{"": "X"}}
 	for _, tn := range tnames {
-		cf.Family[tn] = rapid.SampledFrom([]string{"X", "UR"}).Draw(t, "mix"+tn)
+		cf.Family[tn] = rapid.SampledFrom([]string{"X", "UR", "UM"}).Draw(t, "mix"+tn)
 	}
 	cc.Configs = append(cc.Configs, cf)
 	return cc
@@ -91,7 +91,7 @@ func applyConfigC08(base *Case, cf uconfig) *Case {
 		seen[r] = true
 	}
 	for tn, fam := range cf.Family {
-		if fam == "UR" && tn != "" && tn != "Query" && !seen[tn] {
+		if (fam == "UR" || fam == "UM") && tn != "" && tn != "Query" && !seen[tn] {
 			c.Register = append(c.Register, tn)
 		}
 	}
